@@ -91,7 +91,7 @@ Proof.
   assert (forall s, plain (VStr s) = true -> nospace s) as PS.
   { intros s H. unfold plain in H. apply negb_true_iff in H. apply orb_false_iff in H. destruct H as [H _].
     apply orb_false_iff in H. tauto. }
-  destruct d as [| | | |d'|?|?|?]; try discriminate; destruct v; try discriminate; simpl in *;
+  destruct d as [| | | |d'|?|?|?| | |]; try discriminate; destruct v; try discriminate; simpl in *;
     try apply dec_nospace; try (apply float_ok_nospace; assumption); try (apply PS; assumption).
   all: destruct d'; try discriminate; simpl in *; try reflexivity; try discriminate;
     try apply dec_nospace; try (apply float_ok_nospace; assumption); try (apply PS; assumption).
@@ -103,7 +103,7 @@ Proof.
   intros Hd Hv Hw Pv Pw H.
   assert (forall s, plain (VStr s) = true -> s <> "None") as PN.
   { intros s Hs ->. vm_compute in Hs. discriminate. }
-  destruct d as [| | | |d'|?|?|?]; try discriminate.
+  destruct d as [| | | |d'|?|?|?| | |]; try discriminate.
   - destruct v, w; try discriminate. simpl in H. f_equal. apply dec_inj. assumption.
   - destruct v, w; try discriminate. simpl in H. congruence.
   - destruct v, w; try discriminate. simpl in H. congruence.
@@ -162,6 +162,13 @@ Proof.
 Qed.
 
 (* ---------- decidable equality of values ---------- *)
+Lemma dec_eqb_eq a b : dec_eqb a b = true <-> a = b.
+Proof.
+  destruct a as [s c e], b as [s' c' e']. unfold dec_eqb. cbn [Dec.dsign Dec.dcoef Dec.dexp].
+  rewrite !andb_true_iff, Bool.eqb_true_iff, N.eqb_eq, Z.eqb_eq.
+  split; [intros [[-> ->] ->]; reflexivity|intros E; inversion E; auto].
+Qed.
+
 Lemma pval_eqb_eq : forall a b, pval_eqb a b = true <-> a = b.
 Proof.
   fix IH 1. intros a b. destruct a; destruct b; simpl; try (split; [discriminate|congruence]).
@@ -177,6 +184,11 @@ Proof.
     + rewrite andb_true_iff, IH, IHl. split.
       * intros [-> E]. inversion E. reflexivity.
       * intros E. inversion E. auto.
+  - rewrite String.eqb_eq. split; congruence.
+  - rewrite andb_true_iff, dec_eqb_eq, Z.eqb_eq. split; [intros [-> ->]; reflexivity|intros E; inversion E; auto].
+  - rewrite dec_eqb_eq. split; congruence.
+  - rewrite andb_true_iff, !Z.eqb_eq. split; [intros [-> ->]; reflexivity|intros E; inversion E; auto].
+  - rewrite andb_true_iff, !Z.eqb_eq. split; [intros [-> ->]; reflexivity|intros E; inversion E; auto].
 Qed.
 
 Lemma pvals_eqb_eq : forall xs ys, pvals_eqb xs ys = true <-> xs = ys.
@@ -186,18 +198,57 @@ Proof.
   - rewrite andb_true_iff, pval_eqb_eq, IH. split; [intros [-> ->]; reflexivity|intros E; inversion E; auto].
 Qed.
 
-(* ---------- call normalisation yields validated values ---------- *)
-Lemma norm_typed : forall d v x, ParamName.norm d v = Ok x -> typed d x = true.
+(* ---------- facts about the generated prefix table used by the number-like values ---------- *)
+Lemma unit_prefix_0 : Prefixed.unit_prefix = Ok 0.
+Proof. reflexivity. Qed.
+Lemma unit_is_prefix : Prefixed.is_prefix 0 = true.
+Proof. reflexivity. Qed.
+
+Lemma canon_dec_total d : exists c e, canon_dec d = Ok (c, e).
+Proof. unfold canon_dec. destruct (Dec.dnorm_total d) as [c [e H]]. rewrite H. eauto. Qed.
+
+Lemma canon_pref_unfold d q : canon_pref d q = canon_dec (Dec.dscale10 d (q - 0)).
+Proof. unfold canon_pref, Prefixed.unit_number. rewrite unit_prefix_0. reflexivity. Qed.
+
+Lemma canon_pref_total d q : exists c e, canon_pref d q = Ok (c, e).
+Proof. rewrite canon_pref_unfold. apply canon_dec_total. Qed.
+
+Lemma canon_dec_ok d ce : canon_dec d = Ok ce -> canon_ok (fst ce) (snd ce) = true.
 Proof.
-  fix IH 1. intros d v x H. destruct d as [| | | |d'|n| |ds].
+  unfold canon_dec. destruct (Dec.dnorm d) as [[c e]|] eqn:N; [|discriminate]. intros H. inversion H. subst ce. cbn [fst snd].
+  unfold canon_ok. destruct (Dec.dnorm_spec d c e N) as [[_ [-> ->]]|[_ [_ [_ M]]]]; [reflexivity|].
+  destruct (c =? 0) eqn:E; [apply Z.eqb_eq in E; subst c; exfalso; apply M; reflexivity|].
+  apply negb_true_iff. apply Z.eqb_neq. assumption.
+Qed.
+
+Lemma canon_pref_ok d q ce : canon_pref d q = Ok ce -> canon_ok (fst ce) (snd ce) = true.
+Proof. rewrite canon_pref_unfold. apply canon_dec_ok. Qed.
+
+Lemma float_ok_held r : float_ok r = true -> float_held r = true.
+Proof.
+  unfold float_ok, float_held. intros H. repeat (apply andb_true_iff in H; destruct H as [H ?]).
+  rewrite H, H0, H2. reflexivity.
+Qed.
+
+Lemma float_held_fzero r : float_held r = true -> float_ok (fzero r) = true.
+Proof.
+  unfold fzero. destruct (String.eqb r "-0.0") eqn:E; [reflexivity|].
+  unfold float_ok, float_held. intros H. repeat (apply andb_true_iff in H; destruct H as [H ?]).
+  rewrite H, H0, H1, E. reflexivity.
+Qed.
+
+(* ---------- validation yields level-2 values, canonicalisation yields cache-key values ---------- *)
+Lemma validate_valid : forall d v x, validate d v = Ok x -> valid d x = true.
+Proof.
+  fix IH 1. intros d v x H. destruct d as [| | | |d'|n| |ds| | |].
   - destruct v; simpl in H; try discriminate; inversion H; reflexivity.
   - destruct v; simpl in H; try discriminate.
-    + destruct (_ && _) eqn:E; [|discriminate]. inversion H. simpl. apply andb_true_iff in E. tauto.
-    + destruct (float_ok r) eqn:E; [|discriminate]. inversion H. simpl. assumption.
+    + destruct (_ && _) eqn:E; [|discriminate]. inversion H. simpl. apply andb_true_iff in E. apply float_ok_held. tauto.
+    + destruct (float_held r) eqn:E; [|discriminate]. inversion H. simpl. assumption.
     + inversion H. destruct b; reflexivity.
   - destruct v; simpl in H; try discriminate; inversion H; reflexivity.
   - destruct v; simpl in H; try discriminate; inversion H; reflexivity.
-  - assert (forall y, typed d' y = true -> typed (DOpt d') y = true) as L by (intros y Hy; destruct y; simpl; auto).
+  - assert (forall y, valid d' y = true -> valid (DOpt d') y = true) as L by (intros y Hy; destruct y; simpl; auto).
     destruct v; simpl in H; try (inversion H; reflexivity); apply L; eapply IH; eassumption.
   - destruct v; simpl in H; try discriminate. destruct (N.ltb i n) eqn:E; [|discriminate]. inversion H. simpl. assumption.
   - destruct v; simpl in H; try discriminate; inversion H; reflexivity.
@@ -206,9 +257,84 @@ Proof.
     inversion H. subst x. simpl. clear H. revert vs r G.
     induction ds as [|d0 ds IHl]; intros vs r G; destruct vs as [|v0 vs]; try discriminate.
     + inversion G. reflexivity.
-    + destruct (ParamName.norm d0 v0) as [x0|] eqn:N0; simpl in G; [|discriminate].
+    + destruct (validate d0 v0) as [x0|] eqn:N0; simpl in G; [|discriminate].
       match type of G with (bind ?g _) = _ => destruct g as [r'|] eqn:G'; simpl in G; [|discriminate] end.
       inversion G. subst r. rewrite (IH _ _ _ N0). simpl. eapply IHl. eassumption.
+  - assert (forall o, (o0 <- Ok o ;; u <- Prefixed.unit_prefix ;;
+                       match o0, v with Some x0, _ => Ok (VPrefW x0 u) | None, VStr s => Ok (VLit s) | None, _ => Error EBadKind end) = Ok x ->
+                      valid DScalar x = true) as L.
+    { intros o Ho. cbn [bind] in Ho. rewrite unit_prefix_0 in Ho. cbn [bind] in Ho.
+      destruct o; [inversion Ho; reflexivity|]. destruct v; try discriminate. inversion Ho. reflexivity. }
+    destruct v; simpl in H; try discriminate.
+    + apply (L (Some (Dec.of_int z 0))). exact H.
+    + destruct (dec_of_float r) eqn:E; simpl in H; [|discriminate]. apply (L (Some a)). exact H.
+    + destruct (parse_pystr s) eqn:E; try discriminate.
+      * apply (L (Some d)). exact H.
+      * apply (L None). exact H.
+    + inversion H. reflexivity.
+    + destruct (Prefixed.is_prefix q) eqn:E; [|discriminate]. inversion H. simpl. assumption.
+    + apply (L (Some d)). exact H.
+  - destruct v; simpl in H; try discriminate.
+    destruct (Prefixed.is_prefix q) eqn:E; [|discriminate]. inversion H. simpl. assumption.
+  - simpl in H. destruct (to_number false v) as [[y|]|]; simpl in H; try discriminate. inversion H. reflexivity.
+Qed.
+
+Definition simple (v : pval) : bool :=
+  match v with VPrefW _ _ | VDecW _ | VRec _ | VPref _ _ | VDec _ _ | VFloat _ => false | _ => true end.
+
+Lemma canon_simple v : simple v = true -> canon v = Ok v.
+Proof. destruct v; try discriminate; reflexivity. Qed.
+
+Lemma canon_typed : forall d x y, valid d x = true -> canon x = Ok y -> typed d y = true.
+Proof.
+  fix IH 1. intros d x y V C. destruct d as [| | | |d'|n| |ds| | |].
+  1,3-4,6-7: destruct x; try discriminate; simpl in C; inversion C; subst; exact V.
+  1: { destruct x; try discriminate. simpl in C. inversion C. simpl. apply float_held_fzero. exact V. }
+  - assert (forall z, typed d' z = true -> typed (DOpt d') z = true) as L by (intros z Hz; destruct z; simpl; auto).
+    destruct x; simpl in V; try (simpl in C; inversion C; reflexivity); apply L; eapply IH; eassumption.
+  - destruct x; try discriminate. simpl in C.
+    match type of C with (bind ?g _) = _ => destruct g as [r|] eqn:G; simpl in C; [|discriminate] end.
+    inversion C. subst y. simpl. simpl in V. clear C. revert vs r V G.
+    induction ds as [|d0 ds IHl]; intros vs r V G; destruct vs as [|v0 vs]; try discriminate.
+    + inversion G. reflexivity.
+    + apply andb_true_iff in V. destruct V as [V0 V].
+      destruct (canon v0) as [x0|] eqn:N0; simpl in G; [|discriminate].
+      match type of G with (bind ?g _) = _ => destruct g as [r'|] eqn:G'; simpl in G; [|discriminate] end.
+      inversion G. subst r. rewrite (IH _ _ _ V0 N0). simpl. eapply IHl; eassumption.
+  - destruct x; try discriminate; simpl in C.
+    + inversion C. reflexivity.
+    + destruct (canon_pref d q) as [ce|] eqn:E; simpl in C; [|discriminate]. inversion C. simpl. eapply canon_pref_ok. eassumption.
+  - destruct x; try discriminate; simpl in C.
+    destruct (canon_pref d q) as [ce|] eqn:E; simpl in C; [|discriminate]. inversion C. simpl. eapply canon_pref_ok. eassumption.
+  - destruct x; try discriminate; simpl in C.
+    destruct (canon_dec d) as [ce|] eqn:E; simpl in C; [|discriminate]. inversion C. simpl. eapply canon_dec_ok. eassumption.
+Qed.
+
+(* canonicalisation never fails on a validated value *)
+Lemma canon_total : forall d x, valid d x = true -> exists y, canon x = Ok y.
+Proof.
+  fix IH 1. intros d x V. destruct d as [| | | |d'|n| |ds| | |].
+  1-4,6-7: destruct x; try discriminate; eexists; reflexivity.
+  - destruct x; simpl in V; try (eexists; reflexivity); eapply IH; eassumption.
+  - destruct x; try discriminate. simpl in V.
+    assert (exists r, (fix go (vs : list pval) : result (list pval) :=
+              match vs with [] => Ok [] | x :: vs' => y <- canon x ;; ys <- go vs' ;; Ok (y :: ys) end) vs = Ok r) as [r R].
+    { revert vs V. induction ds as [|d0 ds IHl]; intros vs V; destruct vs as [|v0 vs]; try discriminate.
+      - eexists; reflexivity.
+      - apply andb_true_iff in V. destruct V as [V0 V]. destruct (IH _ _ V0) as [y0 Y0]. destruct (IHl _ V) as [r R].
+        exists (y0 :: r). rewrite Y0. simpl. rewrite R. reflexivity. }
+    exists (VRec r). simpl. rewrite R. reflexivity.
+  - destruct x; try discriminate.
+    + eexists; reflexivity.
+    + destruct (canon_pref_total d q) as [c [e E]]. eexists. simpl. rewrite E. reflexivity.
+  - destruct x; try discriminate. destruct (canon_pref_total d q) as [c [e E]]. eexists. simpl. rewrite E. reflexivity.
+  - destruct x; try discriminate. destruct (canon_dec_total d) as [c [e E]]. eexists. simpl. rewrite E. reflexivity.
+Qed.
+
+Lemma norm_typed d v x : ParamName.norm d v = Ok x -> typed d x = true.
+Proof.
+  unfold ParamName.norm. destruct (validate d v) as [y|] eqn:V; simpl; [|discriminate].
+  intros C. eapply canon_typed; [eapply validate_valid; eassumption|eassumption].
 Qed.
 
 Lemma norm_args_typed : forall fs args vs, norm_args fs args = Ok vs -> typed_all (map f_dtype fs) vs = true.
@@ -220,4 +346,467 @@ Proof.
     rewrite (IH _ _ G'), andb_true_r.
     destruct a as [v|]; [eapply norm_typed; eassumption|].
     destruct (f_default f); [eapply norm_typed; eassumption|discriminate].
+Qed.
+
+Lemma validate_args_valid : forall fs args vs, validate_args fs args = Ok vs -> valid_all (map f_dtype fs) vs = true.
+Proof.
+  induction fs as [|f fs IH]; intros args vs H; destruct args as [|a args]; simpl in H; try discriminate.
+  - inversion H. reflexivity.
+  - match type of H with (bind ?g _) = _ => destruct g as [x|] eqn:G; simpl in H; [|discriminate] end.
+    destruct (validate_args fs args) as [xs|] eqn:G'; simpl in H; [|discriminate]. inversion H. subst vs. simpl.
+    rewrite (IH _ _ G'), andb_true_r.
+    destruct a as [v|]; [eapply validate_valid; eassumption|].
+    destruct (f_default f); [eapply validate_valid; eassumption|discriminate].
+Qed.
+
+(* a call is keyed by the canonical form of the validated instance *)
+Lemma norm_args_split : forall fs args vs,
+  norm_args fs args = Ok vs <-> exists ws, validate_args fs args = Ok ws /\ canon_all ws = Ok vs.
+Proof.
+  induction fs as [|f fs IH]; intros args vs; destruct args as [|a args]; simpl.
+  - split; [intros H; inversion H; exists []; split; reflexivity|intros [ws [H1 H2]]; inversion H1; subst; exact H2].
+  - split; [discriminate|intros [ws [H _]]; discriminate].
+  - split; [discriminate|intros [ws [H _]]; discriminate].
+  - set (w := match a with Some v => Some v | None => f_default f end).
+    assert (match a, f_default f with Some v, _ => ParamName.norm (f_dtype f) v | None, Some dv => ParamName.norm (f_dtype f) dv
+                                 | None, None => Error EMissing end
+            = match w with Some v => ParamName.norm (f_dtype f) v | None => Error EMissing end) as -> by (subst w; destruct a; reflexivity).
+    assert (match a, f_default f with Some v, _ => validate (f_dtype f) v | None, Some dv => validate (f_dtype f) dv
+                                 | None, None => Error EMissing end
+            = match w with Some v => validate (f_dtype f) v | None => Error EMissing end) as -> by (subst w; destruct a; reflexivity).
+    clearbody w. destruct w as [v|]; [|split; [discriminate|intros [ws [H _]]; discriminate]].
+    unfold ParamName.norm. destruct (validate (f_dtype f) v) as [x|]; simpl; [|split; [discriminate|intros [ws [H _]]; discriminate]].
+    split.
+    + intros H. destruct (canon x) as [y|] eqn:C; simpl in H; [|discriminate].
+      destruct (norm_args fs args) as [ys|] eqn:N; simpl in H; [|discriminate]. inversion H. subst vs.
+      destruct (proj1 (IH args ys) N) as [ws [W1 W2]]. exists (x :: ws). rewrite W1. simpl. rewrite C. simpl. rewrite W2. split; reflexivity.
+    + intros [ws [H1 H2]]. destruct (validate_args fs args) as [ws'|] eqn:W; simpl in H1; [|discriminate]. inversion H1. subst ws.
+      simpl in H2. destruct (canon x) as [y|]; simpl in H2; [|discriminate]. destruct (canon_all ws') as [ys|] eqn:CA; simpl in H2; [|discriminate].
+      inversion H2. subst vs. rewrite (proj2 (IH args ys)); [reflexivity|]. exists ws'. split; [exact W|assumption].
+Qed.
+
+(* ================= exact values, normal forms, == and hash of the number-like values ================= *)
+(* the exact value of Prefixed(number = d, prefix = q): d * 10^q as one decimal (Model/Prefixed.v: pval) *)
+Definition pvalue (d : Dec.dec) (q : Z) : Dec.dec := Dec.dscaleb d q.
+
+Lemma dnorm_at d c e m : Dec.dnorm d = Some (c, e) -> m <= Dec.dexp d -> Dec.at_ m d = c * 10 ^ (e - m).
+Proof.
+  intros N Hm. unfold Dec.at_. rewrite Dec.pow10_spec.
+  destruct (Dec.dnorm_spec d c e N) as [[Z0 [-> ->]]|[NZ [Le [Eq _]]]].
+  - rewrite Z0. rewrite !Z.mul_0_l. reflexivity.
+  - rewrite Eq. replace (e - m) with ((e - Dec.dexp d) + (Dec.dexp d - m)) by lia. rewrite Dec.p10_add by lia. ring.
+Qed.
+
+(* two decimals have the same normal form exactly when they have the same value *)
+Lemma dnorm_value_iff a b : Dec.dnorm a = Dec.dnorm b <-> Dec.deqb a b = true.
+Proof.
+  unfold Dec.deqb. rewrite Z.eqb_eq. split.
+  - intros H. destruct (Dec.dnorm_total a) as [c [e Na]]. pose proof Na as Nb. rewrite H in Nb.
+    rewrite (dnorm_at a c e _ Na), (dnorm_at b c e _ Nb); [reflexivity|unfold Dec.dmin; lia|unfold Dec.dmin; lia].
+  - apply Dec.dnorm_eqv.
+Qed.
+
+Lemma canon_dec_eq_iff a b : canon_dec a = canon_dec b <-> Dec.deqb a b = true.
+Proof.
+  rewrite <- dnorm_value_iff. unfold canon_dec.
+  destruct (Dec.dnorm_total a) as [c [e ->]]. destruct (Dec.dnorm_total b) as [c' [e' ->]]. split; congruence.
+Qed.
+
+Lemma at_scaleb m d q : Dec.at_ m (Dec.dscaleb d q) = Dec.at_ (m - q) d.
+Proof. replace m with ((m - q) + q) at 1 by lia. apply Dec.dscaleb_exact. Qed.
+
+Lemma dexp_scale10_nonneg d k : 0 <= k -> Dec.dexp (Dec.dscale10 d k) = Dec.dexp d.
+Proof. intros H. rewrite Dec.dexp_dscale10. lia. Qed.
+
+(* the name / hash form of a prefixed number is a function of its exact value, and determines it *)
+Lemma canon_pref_eq_iff x q y r : canon_pref x q = canon_pref y r <-> Dec.deqb (pvalue x q) (pvalue y r) = true.
+Proof.
+  rewrite !canon_pref_unfold, canon_dec_eq_iff. unfold pvalue.
+  set (m := Z.min (Z.min (Dec.dexp x) (Dec.dexp x + q)) (Z.min (Dec.dexp y) (Dec.dexp y + r))).
+  rewrite (Dec.deqb_spec m) by (rewrite Dec.dexp_dscale10; lia).
+  rewrite (Dec.deqb_spec m (Dec.dscaleb x q) (Dec.dscaleb y r)) by (rewrite Dec.dexp_dscaleb; lia).
+  rewrite !Dec.dscale10_exact by lia. rewrite !at_scaleb. replace (q - 0) with q by lia. replace (r - 0) with r by lia. tauto.
+Qed.
+
+(* Prefixed.__eq__ unfolded: both numbers scaled to the smaller prefix and quantized to EPSILON places *)
+Lemma pcmp_eq_unfold x q y r :
+  Prefixed.pcmp Prefixed.OEq (Prefixed.mkP x q) (Prefixed.mkP y r) =
+  let s := if q <? r then q else r in
+  (Dec.dq_int (Dec.dscale10 x (q - s)) (- PrefixTable.EPSILON) =? Dec.dq_int (Dec.dscale10 y (r - s)) (- PrefixTable.EPSILON)).
+Proof. reflexivity. Qed.
+
+(* numbers of equal value compare equal (whatever their digits) *)
+Lemma pcmp_eq_of_value x q y r : Dec.deqb (pvalue x q) (pvalue y r) = true ->
+  Prefixed.pcmp Prefixed.OEq (Prefixed.mkP x q) (Prefixed.mkP y r) = true.
+Proof.
+  intros V. rewrite pcmp_eq_unfold. cbv zeta. set (s := if q <? r then q else r).
+  assert (s <= q /\ s <= r) as [Sq Sr] by (subst s; destruct (q <? r) eqn:E; lia).
+  set (E := PrefixTable.EPSILON) in *. clearbody E.
+  set (e := Z.min (- E) (Z.min (Dec.dexp x) (Dec.dexp y))).
+  rewrite (Dec.dq_int_rhe e) by (rewrite ?dexp_scale10_nonneg; lia).
+  rewrite (Dec.dq_int_rhe e (Dec.dscale10 y (r - s))) by (rewrite ?dexp_scale10_nonneg; lia).
+  rewrite !Dec.dscale10_exact by lia.
+  unfold pvalue in V. rewrite (Dec.deqb_spec (e + s)) in V by (rewrite Dec.dexp_dscaleb; lia).
+  rewrite !at_scaleb in V. replace (e - (q - s)) with (e + s - q) by lia. replace (e - (r - s)) with (e + s - r) by lia.
+  rewrite V. apply Z.eqb_refl.
+Qed.
+
+(* and conversely, when neither number has more than EPSILON decimal places *)
+Lemma pcmp_eq_fine x q y r : - PrefixTable.EPSILON <= Dec.dexp x -> - PrefixTable.EPSILON <= Dec.dexp y ->
+  Prefixed.pcmp Prefixed.OEq (Prefixed.mkP x q) (Prefixed.mkP y r) = true -> Dec.deqb (pvalue x q) (pvalue y r) = true.
+Proof.
+  intros Fx Fy. rewrite pcmp_eq_unfold. cbv zeta. set (s := if q <? r then q else r).
+  assert (s <= q /\ s <= r) as [Sq Sr] by (subst s; destruct (q <? r) eqn:E; lia).
+  set (E := PrefixTable.EPSILON) in *. clearbody E.
+  unfold Dec.dq_int. rewrite !dexp_scale10_nonneg by lia.
+  replace (- E <=? Dec.dexp x) with true by (symmetry; apply Z.leb_le; lia).
+  replace (- E <=? Dec.dexp y) with true by (symmetry; apply Z.leb_le; lia).
+  rewrite Z.eqb_eq. rewrite !Dec.dscale10_exact by lia. intros H.
+  unfold pvalue. rewrite (Dec.deqb_spec (s - E)) by (rewrite Dec.dexp_dscaleb; lia).
+  rewrite !at_scaleb. replace (s - E - q) with (- E - (q - s)) by lia. replace (s - E - r) with (- E - (r - s)) by lia. exact H.
+Qed.
+
+(* values that are tolerance-equal without being equal exist (so the restriction above is needed) ... *)
+Example tolerance_equal_not_equal :
+  let a := Dec.mkDec false 1 (-21) in let b := Dec.mkDec false 0 0 in
+  Prefixed.pcmp Prefixed.OEq (Prefixed.mkP a 0) (Prefixed.mkP b 0) = true /\ Dec.deqb (pvalue a 0) (pvalue b 0) = false /\
+  canon_pref a 0 <> canon_pref b 0.
+Proof. repeat split; try (vm_compute; reflexivity). vm_compute. discriminate. Qed.
+
+(* ================= the cache key (level 3, Leibniz) against == / hash / dict lookup on level 2 ================= *)
+Lemma canon_nonsimple v y : canon v = Ok y -> simple v = false -> simple y = false.
+Proof.
+  destruct v; try discriminate; simpl; intros C _.
+  - inversion C. reflexivity.
+  - match type of C with (bind ?g _) = _ => destruct g; simpl in C; [|discriminate] end. inversion C. reflexivity.
+  - destruct (canon_pref d q); simpl in C; [|discriminate]. inversion C. reflexivity.
+  - destruct (canon_dec d); simpl in C; [|discriminate]. inversion C. reflexivity.
+Qed.
+
+Section LiftProofs.
+Variable RP : Dec.dec -> Z -> Dec.dec -> Z -> bool.
+Variable RD : Dec.dec -> Dec.dec -> bool.
+Variable RF : string -> string -> bool.
+Variable G : Dec.dec -> bool.          (* a side condition on the Prefixed numbers *)
+
+Fixpoint guard (v : pval) : bool :=
+  match v with
+  | VPrefW d _ => G d
+  | VRec vs => (fix go (vs : list pval) : bool := match vs with [] => true | x :: vs' => guard x && go vs' end) vs
+  | _ => true
+  end.
+
+Lemma lift_simple a b : simple a = true -> lift_eqb RP RD RF a b = pval_eqb a b.
+Proof. destruct a; try discriminate; reflexivity. Qed.
+
+(* soundness: leaf tests that imply equal canonical forms lift to whole values *)
+Lemma lift_sound :
+  (forall x q y r, G x = true -> G y = true -> RP x q y r = true -> canon_pref x q = canon_pref y r) ->
+  (forall x y, RD x y = true -> canon_dec x = canon_dec y) ->
+  (forall r s, RF r s = true -> fzero r = fzero s) ->
+  forall a b x y, canon a = Ok x -> canon b = Ok y -> guard a = true -> guard b = true ->
+  lift_eqb RP RD RF a b = true -> x = y.
+Proof.
+  intros HP HD HF. fix IH 1. intros a b x y Ca Cb Ga Gb L.
+  destruct (simple a) eqn:Sa.
+  - rewrite (lift_simple a b Sa) in L. apply pval_eqb_eq in L. subst b. congruence.
+  - destruct a; try discriminate.
+    + (* VFloat *)
+      destruct b; try discriminate. simpl in Ca, Cb, L. rewrite (HF _ _ L) in Ca. congruence.
+    + (* VRec *)
+      destruct b; try discriminate. simpl in Ca, Cb.
+      match type of Ca with (bind ?g _) = _ => destruct g as [ra|] eqn:Ra; simpl in Ca; [|discriminate] end.
+      match type of Cb with (bind ?g _) = _ => destruct g as [rb|] eqn:Rb; simpl in Cb; [|discriminate] end.
+      inversion Ca. inversion Cb. f_equal. clear Ca Cb H0 H1 Sa. simpl in L, Ga, Gb.
+      revert vs0 ra rb Ra Rb Ga Gb L. induction vs as [|v vs IHl]; intros ws ra rb Ra Rb Ga Gb L; destruct ws as [|w ws]; try discriminate.
+      * inversion Ra. inversion Rb. reflexivity.
+      * destruct (canon v) as [xv|] eqn:Cv; simpl in Ra; [|discriminate].
+        match type of Ra with (bind ?g _) = _ => destruct g as [ra'|] eqn:Ra'; simpl in Ra; [|discriminate] end.
+        destruct (canon w) as [xw|] eqn:Cw; simpl in Rb; [|discriminate].
+        match type of Rb with (bind ?g _) = _ => destruct g as [rb'|] eqn:Rb'; simpl in Rb; [|discriminate] end.
+        inversion Ra. inversion Rb.
+        apply andb_true_iff in L. destruct L as [L1 L2]. apply andb_true_iff in Ga. destruct Ga as [Ga1 Ga2].
+        apply andb_true_iff in Gb. destruct Gb as [Gb1 Gb2].
+        f_equal; [eapply IH; eassumption|eapply IHl; [reflexivity|eassumption..]].
+    + (* VPrefW *)
+      destruct b; try discriminate. simpl in Ca, Cb, L, Ga, Gb.
+      rewrite (HP _ _ _ _ Ga Gb L) in Ca. congruence.
+    + (* VDecW *)
+      destruct b; try discriminate. simpl in Ca, Cb, L. rewrite (HD _ _ L) in Ca. congruence.
+Qed.
+
+(* completeness: leaf tests that hold whenever the canonical forms agree lift to whole values *)
+Lemma lift_complete :
+  (forall x q y r, canon_pref x q = canon_pref y r -> RP x q y r = true) ->
+  (forall x y, canon_dec x = canon_dec y -> RD x y = true) ->
+  (forall r s, fzero r = fzero s -> RF r s = true) ->
+  forall a b x, canon a = Ok x -> canon b = Ok x -> lift_eqb RP RD RF a b = true.
+Proof.
+  intros HP HD HF. fix IH 1. intros a b x Ca Cb.
+  destruct (simple a) eqn:Sa.
+  - rewrite (lift_simple a b Sa). apply pval_eqb_eq. rewrite (canon_simple _ Sa) in Ca. inversion Ca. subst x.
+    destruct (simple b) eqn:Sb; [rewrite (canon_simple _ Sb) in Cb; congruence|].
+    pose proof (canon_nonsimple _ _ Cb Sb). congruence.
+  - destruct a; try discriminate.
+    + (* VFloat *)
+      simpl in Ca. inversion Ca. subst x. clear Ca.
+      destruct b; simpl in Cb; try discriminate.
+      * inversion Cb. simpl. apply HF. congruence.
+      * match type of Cb with (bind ?g _) = _ => destruct g; simpl in Cb; discriminate end.
+      * destruct (canon_pref d q); simpl in Cb; discriminate.
+      * destruct (canon_dec d); simpl in Cb; discriminate.
+    + (* VRec *)
+      simpl in Ca. match type of Ca with (bind ?g _) = _ => destruct g as [ra|] eqn:Ra; simpl in Ca; [|discriminate] end.
+      inversion Ca. subst x. clear Ca Sa.
+      destruct b; simpl in Cb; try discriminate;
+        try (destruct (canon_pref d q); simpl in Cb; discriminate); try (destruct (canon_dec d); simpl in Cb; discriminate).
+      match type of Cb with (bind ?g _) = _ => destruct g as [rb|] eqn:Rb; simpl in Cb; [|discriminate] end.
+      inversion Cb. subst rb. clear Cb. simpl.
+      revert vs0 ra Ra Rb. induction vs as [|v vs IHl]; intros ws ra Ra Rb; destruct ws as [|w ws].
+      * reflexivity.
+      * inversion Ra. subst ra. destruct (canon w); simpl in Rb; [|discriminate].
+        match type of Rb with (bind ?g _) = _ => destruct g; simpl in Rb; discriminate end.
+      * inversion Rb. subst ra. destruct (canon v); simpl in Ra; [|discriminate].
+        match type of Ra with (bind ?g _) = _ => destruct g; simpl in Ra; discriminate end.
+      * destruct (canon v) as [xv|] eqn:Cv; simpl in Ra; [|discriminate].
+        match type of Ra with (bind ?g _) = _ => destruct g as [ra'|] eqn:Ra'; simpl in Ra; [|discriminate] end.
+        destruct (canon w) as [xw|] eqn:Cw; simpl in Rb; [|discriminate].
+        match type of Rb with (bind ?g _) = _ => destruct g as [rb'|] eqn:Rb'; simpl in Rb; [|discriminate] end.
+        inversion Ra. subst ra. inversion Rb. subst xw rb'.
+        apply andb_true_iff. split; [eapply IH; eassumption|eapply IHl; [reflexivity|eassumption]].
+    + (* VPrefW *)
+      simpl in Ca. destruct (canon_pref d q) as [ce|] eqn:E; simpl in Ca; [|discriminate]. inversion Ca. subst x. clear Ca.
+      destruct b; simpl in Cb; try discriminate.
+      * match type of Cb with (bind ?g _) = _ => destruct g; simpl in Cb; discriminate end.
+      * destruct (canon_pref d0 q0) as [ce'|] eqn:E'; simpl in Cb; [|discriminate]. inversion Cb.
+        simpl. apply HP. rewrite E, E'. destruct ce, ce'. simpl in *. congruence.
+      * destruct (canon_dec d0); simpl in Cb; discriminate.
+    + (* VDecW *)
+      simpl in Ca. destruct (canon_dec d) as [ce|] eqn:E; simpl in Ca; [|discriminate]. inversion Ca. subst x. clear Ca.
+      destruct b; simpl in Cb; try discriminate.
+      * match type of Cb with (bind ?g _) = _ => destruct g; simpl in Cb; discriminate end.
+      * destruct (canon_pref d0 q); simpl in Cb; discriminate.
+      * destruct (canon_dec d0) as [ce'|] eqn:E'; simpl in Cb; [|discriminate]. inversion Cb.
+        simpl. apply HD. rewrite E, E'. destruct ce, ce'. simpl in *. congruence.
+Qed.
+End LiftProofs.
+
+(* lists of field values behave like one paramclass instance *)
+Lemma lifts_as_rec RP RD RF xs ys : lifts_eqb RP RD RF xs ys = lift_eqb RP RD RF (VRec xs) (VRec ys).
+Proof. revert ys. induction xs as [|x xs IH]; intros [|y ys]; simpl; try reflexivity; rewrite IH; reflexivity. Qed.
+
+Lemma canon_all_as_rec xs : canon (VRec xs) = (r <- canon_all xs ;; Ok (VRec r)).
+Proof.
+  simpl. f_equal.
+Qed.
+
+Lemma guard_all_as_rec G xs : guard G (VRec xs) = forallb (guard G) xs.
+Proof. simpl. induction xs as [|x xs IH]; simpl; [reflexivity|]. rewrite IH. reflexivity. Qed.
+
+Definition fine_dec (d : Dec.dec) : bool := - PrefixTable.EPSILON <=? Dec.dexp d.
+
+Lemma fine_guard : forall v, fine v = guard fine_dec v.
+Proof. intros v. destruct v; reflexivity. Qed.
+
+Lemma fine_all_forallb vs : fine_all vs = forallb (guard fine_dec) vs.
+Proof. induction vs as [|x xs IH]; simpl; [reflexivity|]. rewrite fine_guard, IH. reflexivity. Qed.
+
+Lemma guard_true : forall v, guard (fun _ => true) v = true.
+Proof.
+  fix IH 1. intros v. destruct v; try reflexivity. simpl.
+  induction vs as [|x xs IHl]; [reflexivity|]. rewrite IH, IHl. reflexivity.
+Qed.
+
+Lemma res_eqb_iff a b : is_ok a = true -> (res_eqb a b = true <-> a = b).
+Proof.
+  destruct a as [[c e]|]; [|discriminate]. intros _. destruct b as [[c' e']|]; simpl; [|split; discriminate].
+  rewrite andb_true_iff, !Z.eqb_eq. split; [intros [-> ->]; reflexivity|intros H; inversion H; auto].
+Qed.
+
+Lemma pref_hash_eq_iff x q y r : pref_hash_eq x q y r = true <-> canon_pref x q = canon_pref y r.
+Proof. unfold pref_hash_eq. apply res_eqb_iff. destruct (canon_pref_total x q) as [c [e ->]]. reflexivity. Qed.
+Lemma dec_hash_eq_iff x y : dec_hash_eq x y = true <-> canon_dec x = canon_dec y.
+Proof. unfold dec_hash_eq. apply res_eqb_iff. destruct (canon_dec_total x) as [c [e ->]]. reflexivity. Qed.
+
+Lemma float_eq_iff r s : float_eq r s = true <-> fzero r = fzero s.
+Proof. unfold float_eq. apply String.eqb_eq. Qed.
+
+(* (1) == on validated instances against the cache key: values with equal keys compare equal ... *)
+Lemma inst_eqb_of_key a b x : canon a = Ok x -> canon b = Ok x -> inst_eqb a b = true.
+Proof.
+  apply lift_complete.
+  - intros p q y r H. apply pcmp_eq_of_value. apply canon_pref_eq_iff. assumption.
+  - intros p y H. apply canon_dec_eq_iff. assumption.
+  - intros r s. apply float_eq_iff.
+Qed.
+
+(* ... and, when no Prefixed number has more than EPSILON decimal places, values that compare equal have equal keys *)
+Lemma inst_eqb_key a b x y : canon a = Ok x -> canon b = Ok y -> fine a = true -> fine b = true ->
+  inst_eqb a b = true -> x = y.
+Proof.
+  rewrite !fine_guard. apply lift_sound.
+  - intros p q y' r Fp Fy H. apply canon_pref_eq_iff. unfold fine_dec in *. apply pcmp_eq_fine; try lia. exact H.
+  - intros p y' H. apply canon_dec_eq_iff. assumption.
+  - intros r s. apply float_eq_iff.
+Qed.
+
+(* (2) the idealised hash agrees exactly on equal keys *)
+Lemma hash_eqb_key a b x y : canon a = Ok x -> canon b = Ok y -> (hash_eqb a b = true <-> x = y).
+Proof.
+  intros Ca Cb. split.
+  - intros H. eapply (lift_sound pref_hash_eq dec_hash_eq float_eq (fun _ => true)); try eassumption; try apply guard_true.
+    + intros p q y' r _ _. apply pref_hash_eq_iff.
+    + intros p y'. apply dec_hash_eq_iff.
+    + intros r s. apply float_eq_iff.
+  - intros <-. eapply lift_complete; try eassumption.
+    + intros p q y' r. apply pref_hash_eq_iff.
+    + intros p y'. apply dec_hash_eq_iff.
+    + intros r s. apply float_eq_iff.
+Qed.
+
+(* whole parameter sets *)
+Lemma canon_all_rec xs r : canon_all xs = Ok r -> canon (VRec xs) = Ok (VRec r).
+Proof. intros H. rewrite canon_all_as_rec, H. reflexivity. Qed.
+
+Lemma insts_eqb_of_key xs ys r : canon_all xs = Ok r -> canon_all ys = Ok r -> insts_eqb xs ys = true.
+Proof.
+  intros Hx Hy. unfold insts_eqb. rewrite lifts_as_rec.
+  apply (inst_eqb_of_key _ _ (VRec r)); apply canon_all_rec; assumption.
+Qed.
+
+Lemma insts_eqb_key xs ys r s : canon_all xs = Ok r -> canon_all ys = Ok s -> fine_all xs = true -> fine_all ys = true ->
+  insts_eqb xs ys = true -> r = s.
+Proof.
+  intros Hx Hy Fx Fy E. unfold insts_eqb in E. rewrite lifts_as_rec in E.
+  assert (VRec r = VRec s) as Q; [|inversion Q; reflexivity].
+  eapply inst_eqb_key; try (apply canon_all_rec; eassumption); try exact E.
+  - rewrite fine_guard, guard_all_as_rec, <- fine_all_forallb. assumption.
+  - rewrite fine_guard, guard_all_as_rec, <- fine_all_forallb. assumption.
+Qed.
+
+Lemma hashes_eqb_key xs ys r s : canon_all xs = Ok r -> canon_all ys = Ok s -> (hashes_eqb xs ys = true <-> r = s).
+Proof.
+  intros Hx Hy. unfold hashes_eqb. rewrite lifts_as_rec.
+  rewrite (hash_eqb_key _ _ (VRec r) (VRec s)) by (apply canon_all_rec; assumption).
+  split; [intros Q; inversion Q; reflexivity|intros ->; reflexivity].
+Qed.
+
+(* (3) the dict lookup of the generator cache (hash equal and ==) hits exactly on equal keys - with no restriction *)
+Lemma lookup_hit_key xs ys r s : canon_all xs = Ok r -> canon_all ys = Ok s -> (lookup_hit xs ys = true <-> r = s).
+Proof.
+  intros Hx Hy. unfold lookup_hit. rewrite andb_true_iff, (hashes_eqb_key xs ys r s Hx Hy). split; [tauto|].
+  intros ->. split; [reflexivity|]. eapply insts_eqb_of_key; eassumption.
+Qed.
+
+(* ================= the hashed form: the encoded JSON value is injective on cache-key values ================= *)
+Lemma split_at_char c : forall r r' t t', has_char c r = false -> has_char c r' = false ->
+  r ++ String c t = r' ++ String c t' -> r = r' /\ t = t'.
+Proof.
+  induction r as [|x r IH]; destruct r' as [|x' r']; simpl; intros t t' H1 H2 H.
+  - inversion H. auto.
+  - inversion H as [[Hc Ht]]. subst x'. rewrite Ascii.eqb_refl in H2. discriminate.
+  - inversion H as [[Hc Ht]]. subst x. rewrite Ascii.eqb_refl in H1. discriminate.
+  - inversion H as [[Hc Ht]]. subst x'.
+    apply orb_false_iff in H1. apply orb_false_iff in H2.
+    destruct (IH r' t t') as [-> ->]; tauto.
+Qed.
+
+Lemma dec_no_e z : has_char "e" (dec z) = false.
+Proof. apply (all_chars_has dec_char); [reflexivity|apply dec_chars]. Qed.
+
+(* _value_name is injective on (coefficient, exponent) *)
+Lemma canon_str_inj c e c' e' : canon_str c e = canon_str c' e' -> c = c' /\ e = e'.
+Proof.
+  unfold canon_str. intros H. apply (split_at_char "e") in H; try apply dec_no_e.
+  destruct H as [H1 H2]. split; apply dec_inj; assumption.
+Qed.
+
+(* ... hence on VALUES: two numbers in normal form with the same text are the same number *)
+Lemma index_keys_inj : forall l l' n, index_keys n l = index_keys n l' -> l = l'.
+Proof.
+  induction l as [|x l IH]; intros [|y l'] n H; simpl in H; try discriminate; [reflexivity|].
+  inversion H. f_equal. eapply IH. eassumption.
+Qed.
+
+Fixpoint lvl3 (v : pval) : bool :=
+  match v with
+  | VPrefW _ _ | VDecW _ => false
+  | VRec vs => (fix go (vs : list pval) : bool := match vs with [] => true | x :: vs' => lvl3 x && go vs' end) vs
+  | _ => true
+  end.
+
+Lemma typed_lvl3 : forall d v, typed d v = true -> lvl3 v = true.
+Proof.
+  fix IH 1. intros d v H. destruct d as [| | | |d'|n| |ds| | |]; try (destruct v; try discriminate; reflexivity).
+  - destruct v; simpl in H; try reflexivity; try (eapply IH; eassumption).
+  - destruct v; try discriminate. simpl in H. simpl. revert vs H.
+    induction ds as [|d0 ds IHl]; intros [|v0 vs] H; try discriminate; [reflexivity|].
+    apply andb_true_iff in H. destruct H as [H0 H]. rewrite (IH _ _ H0). simpl. apply IHl. assumption.
+Qed.
+
+Lemma encode_inj : forall a b, lvl3 a = true -> lvl3 b = true -> encode a = encode b -> a = b.
+Proof.
+  fix IH 1. intros a b La Lb E.
+  destruct a; destruct b; simpl in E; try discriminate; try (inversion E; reflexivity).
+  - (* paramclass instances *)
+    inversion E as [E']. apply index_keys_inj in E'. f_equal. simpl in La, Lb. clear E. revert vs0 Lb E'.
+    induction vs as [|x xs IHl]; intros [|y ys] Lb E'; try discriminate; [reflexivity|].
+    apply andb_true_iff in La. destruct La as [La1 La2]. apply andb_true_iff in Lb. destruct Lb as [Lb1 Lb2].
+    inversion E' as [[Ex Er]]. f_equal; [apply IH; assumption|apply IHl; assumption].
+  - destruct vs as [|x [|? ?]]; simpl in E; try discriminate; inversion E as [[K _]]; vm_compute in K; discriminate.
+  - destruct vs as [|x [|? ?]]; simpl in E; try discriminate; inversion E as [[K _]]; vm_compute in K; discriminate.
+  - destruct vs as [|x [|? ?]]; simpl in E; try discriminate; inversion E as [[K _]]; vm_compute in K; discriminate.
+  - destruct vs as [|x [|? ?]]; simpl in E; try discriminate; inversion E as [[K _]]; vm_compute in K; discriminate.
+  - destruct vs as [|x [|? ?]]; simpl in E; try discriminate; inversion E as [[K _]]; vm_compute in K; discriminate.
+  - inversion E as [E']. apply canon_str_inj in E'. destruct E' as [-> ->]. reflexivity.
+  - destruct vs as [|x [|? ?]]; simpl in E; try discriminate; inversion E as [[K _]]; vm_compute in K; discriminate.
+  - inversion E as [E']. apply canon_str_inj in E'. destruct E' as [-> ->]. reflexivity.
+Qed.
+
+Lemma zip_keys_inj : forall ks l l', List.length l = List.length ks -> List.length l' = List.length ks ->
+  zip_keys ks l = zip_keys ks l' -> l = l'.
+Proof.
+  induction ks as [|k ks IH]; intros [|x l] [|y l'] H1 H2 H; simpl in *; try discriminate; [reflexivity|].
+  inversion H. f_equal. apply IH; auto.
+Qed.
+
+Lemma map_encode_inj : forall ds vs ws, typed_all ds vs = true -> typed_all ds ws = true ->
+  map encode vs = map encode ws -> vs = ws.
+Proof.
+  induction ds as [|d ds IH]; intros [|v vs] [|w ws] Tv Tw H; simpl in *; try discriminate; [reflexivity|].
+  apply andb_true_iff in Tv. destruct Tv as [Tv Tvs]. apply andb_true_iff in Tw. destruct Tw as [Tw Tws].
+  inversion H. f_equal; [apply encode_inj; try assumption; eapply typed_lvl3; eassumption|eapply IH; eassumption].
+Qed.
+
+(* the JSON value of a parameter set determines the parameter set *)
+Lemma json_tree_inj fs vs ws : typed_all (map f_dtype fs) vs = true -> typed_all (map f_dtype fs) ws = true ->
+  json_tree fs vs = json_tree fs ws -> vs = ws.
+Proof.
+  intros Tv Tw H. unfold json_tree in H. inversion H as [H'].
+  apply zip_keys_inj in H'.
+  - eapply map_encode_inj; eassumption.
+  - rewrite !map_length. symmetry. apply typed_all_length in Tv. rewrite map_length in Tv. exact Tv.
+  - rewrite !map_length. symmetry. apply typed_all_length in Tw. rewrite map_length in Tw. exact Tw.
+Qed.
+
+(* what the implementation encodes (the validated instance) is a function of the cache key only *)
+Lemma encode_inst_key a b x : canon a = Ok x -> canon b = Ok x -> encode_inst a = encode_inst b.
+Proof. unfold encode_inst. intros -> ->. reflexivity. Qed.
+
+(* the text written for a prefixed number (repaired encoder) is the same exactly for numbers of the same value *)
+Lemma encode_inst_pref_iff x q y r :
+  encode_inst (VPrefW x q) = encode_inst (VPrefW y r) <-> Dec.deqb (pvalue x q) (pvalue y r) = true.
+Proof.
+  rewrite <- canon_pref_eq_iff. unfold encode_inst. simpl.
+  destruct (canon_pref_total x q) as [c [e ->]]. destruct (canon_pref_total y r) as [c' [e' ->]]. simpl. split.
+  - intros H. inversion H as [H']. apply canon_str_inj in H'. destruct H' as [-> ->]. reflexivity.
+  - intros H. inversion H. reflexivity.
+Qed.
+
+Lemma encode_inst_dec_iff x y : encode_inst (VDecW x) = encode_inst (VDecW y) <-> Dec.deqb x y = true.
+Proof.
+  rewrite <- canon_dec_eq_iff. unfold encode_inst. simpl.
+  destruct (canon_dec_total x) as [c [e ->]]. destruct (canon_dec_total y) as [c' [e' ->]]. simpl. split.
+  - intros H. inversion H as [H']. apply canon_str_inj in H'. destruct H' as [-> ->]. reflexivity.
+  - intros H. inversion H. reflexivity.
 Qed.
